@@ -39,6 +39,8 @@ func main() {
 	case "C11":
 		vsched.TrackStates = false
 		runC11sess(R)
+	case "C01":
+		runC01conc(R)
 	case "C20":
 		runC20(R)
 	case "C13":
